@@ -20,7 +20,7 @@ Match == /\ toU' = Ev.tu /\ toE' = Ev.te /\ loops' = Ev.loops /\ Len(errors') = 
 Step == l' = l + 1 /\ UNCHANGED tid
 
 TInit == /\ tid \in 1..Len(Traces) /\ l = 1 /\ InitWith(Traces[tid].root)
-TPopFrame == More /\ Ev.act = "PopFrame" /\ PopFrame /\ Match /\ Step
+TPopFrame == More /\ Ev.act = "PopFrame" /\ PopFrameWith(Ev.own) /\ Match /\ Step
 TUnwrap == More /\ Ev.act = "Unwrap" /\ UnwrapWith(Ev.r) /\ Match /\ Step
 TToElab == ToElab /\ UNCHANGED <<tid, l>>        \* silent: no probe (bounded: enabled once per phase)
 TReachLeaf == More /\ Ev.act = "ReachLeaf" /\ ReachLeaf /\ toE = Ev.te /\ toU = Ev.tu /\ Step
